@@ -320,3 +320,266 @@ Qed.
 
 Lemma content_open md : content (dest_open md []) = [].
 Proof. destruct md; reflexivity. Qed.
+
+Lemma content_run_binary ms f :
+  content (run Binary ms f) = content f ++ terminated (encodings ms).
+Proof. now rewrite run_events, content_app, content_binary_events. Qed.
+
+(* ========================================================================
+   4. UTF-8
+   ======================================================================== *)
+
+Ltac sb :=
+  repeat (rewrite ?andb_true_iff, ?andb_false_iff, ?orb_true_iff, ?orb_false_iff,
+            ?negb_true_iff, ?negb_false_iff,
+            ?N.ltb_lt, ?N.ltb_ge, ?N.leb_le, ?N.leb_gt, ?N.eqb_eq, ?N.eqb_neq);
+  lia.
+
+(* decide the condition of some [if] of the goal by arithmetic *)
+Ltac dif :=
+  match goal with
+  | |- context [if ?b then _ else _] =>
+      let H := fresh in
+      first [ assert (H : b = true) by sb | assert (H : b = false) by sb ];
+      rewrite H; clear H
+  end.
+
+Lemma scalar_bounds c : is_scalar c = true -> c < 1114112 /\ (c < 55296 \/ 57344 <= c).
+Proof. unfold is_scalar, is_surrogate. intros H. nb. apply andb_false_iff in H0. destruct H0; nb; lia. Qed.
+
+Lemma utf8_dec1_utf8 c r : is_scalar c = true -> utf8_dec1 (utf8 c ++ r) = Some (c, r).
+Proof.
+  intros Hs. apply scalar_bounds in Hs. destruct Hs as [Hlim Hsur].
+  unfold utf8. cbv zeta.
+  destruct (c <? 128) eqn:E1; [|destruct (c <? 2048) eqn:E2; [|destruct (c <? 65536) eqn:E3]]; nb;
+    unfold utf8_dec1, is_cont, is_surrogate; cbn [List.app]; cbv zeta.
+  - now rewrite (proj2 (N.ltb_lt c 128) E1).
+  - repeat dif. repeat f_equal. lia.
+  - repeat dif. repeat f_equal. lia.
+  - repeat dif. repeat f_equal. lia.
+Qed.
+
+Lemma utf8_length c : (1 <= length (utf8 c))%nat.
+Proof.
+  unfold utf8. cbv zeta. destruct (c <? 128); [cbn; lia|].
+  destruct (c <? 2048); [cbn; lia|]. destruct (c <? 65536); cbn; lia.
+Qed.
+
+Lemma utf8_all_length t : (length t <= length (utf8_all t))%nat.
+Proof.
+  unfold utf8_all. induction t as [|c t IH]; cbn; [lia|].
+  rewrite app_length. pose proof (utf8_length c). lia.
+Qed.
+
+Lemma utf8_all_app a b : utf8_all (a ++ b) = utf8_all a ++ utf8_all b.
+Proof. unfold utf8_all. apply flat_map_app. Qed.
+
+Definition scalars (t : text) : Prop := Forall (fun c => is_scalar c = true) t.
+
+Lemma utf8_decode_fuel_all t : forall n,
+  scalars t -> (length t <= n)%nat -> utf8_decode_fuel n (utf8_all t) = Some t.
+Proof.
+  induction t as [|c t IH]; intros n Hs Hn.
+  - destruct n; reflexivity.
+  - inversion Hs; subst. cbn in Hn. destruct n as [|n]; [lia|].
+    change (utf8_all (c :: t)) with (utf8 c ++ utf8_all t).
+    pose proof (utf8_length c) as Hl.
+    destruct (utf8 c ++ utf8_all t) as [|b0 s] eqn:E.
+    { apply (f_equal (@length N)) in E. rewrite app_length in E. cbn in E. lia. }
+    cbn [utf8_decode_fuel]. rewrite <- E, utf8_dec1_utf8 by assumption.
+    rewrite IH; auto. lia.
+Qed.
+
+(* bytes.decode(utf-8) gives back the text whose UTF-8 encoding the bytes are *)
+Lemma utf8_decode_utf8_all t : scalars t -> utf8_decode (utf8_all t) = Some t.
+Proof. intros Hs. unfold utf8_decode. apply utf8_decode_fuel_all; auto. apply utf8_all_length. Qed.
+
+(* ---- the encoder's output is closed under the following generators *)
+Section closure.
+  Variable Q : bytes -> Prop.
+  Hypothesis Qnil : Q [].
+  Hypothesis Qapp : forall a b, Q a -> Q b -> Q (a ++ b).
+  Hypothesis Qascii : forall x, 32 <= x -> x < 128 -> Q [x].
+  Hypothesis Qutf8 : forall c, is_scalar c = true -> 128 <= c -> Q (utf8 c).
+
+  Lemma Qcons x l : 32 <= x -> x < 128 -> Q l -> Q (x :: l).
+  Proof. intros. change (x :: l) with ([x] ++ l). auto. Qed.
+
+  Ltac qa := repeat (apply Qcons; [lia | lia |]); try apply Qnil.
+
+  Lemma Qconcat l : Forall Q l -> Q (concat l).
+  Proof. induction 1; cbn; auto. Qed.
+
+  Lemma Qjoin l : Forall Q l -> Q (join_comma l).
+  Proof.
+    induction 1 as [|x l Hx Hl IH]; cbn; auto.
+    destruct l as [|y l']; auto. apply Qapp; auto. apply Qcons; auto; lia.
+  Qed.
+
+  Lemma hexdigit_ascii d : d < 16 -> 32 <= hexdigit d /\ hexdigit d < 128.
+  Proof. unfold hexdigit. destruct (d <? 10); lia. Qed.
+
+  Lemma Q_enc_char c b : enc_char c = Some b -> Q b.
+  Proof.
+    unfold enc_char.
+    destruct (c =? 34); [intros H; inversion H; qa|].
+    destruct (c =? 92); [intros H; inversion H; qa|].
+    destruct (c <? 32) eqn:E.
+    - intros H; inversion H; subst; clear H. unfold short_escape. nb.
+      destruct (c =? 8); [qa|]. destruct (c =? 9); [qa|]. destruct (c =? 10); [qa|].
+      destruct (c =? 12); [qa|]. destruct (c =? 13); [qa|].
+      assert (c / 16 < 16) as H1 by lia. assert (c mod 16 < 16) as H2 by lia.
+      apply hexdigit_ascii in H1, H2.
+      repeat (apply Qcons; [lia | lia |]). apply Qnil.
+    - destruct (is_scalar c) eqn:Es; [|discriminate].
+      intros H; inversion H; subst. nb.
+      destruct (N.ltb_spec c 128) as [Hlt|Hge].
+      + unfold utf8. rewrite (proj2 (N.ltb_lt c 128) Hlt). now apply Qascii.
+      + now apply Qutf8.
+  Qed.
+
+  Lemma Q_enc_str s b : enc_str s = Some b -> Q b.
+  Proof.
+    unfold enc_str. destruct (sequence (map enc_char s)) as [parts|] eqn:E; [|discriminate].
+    intros H; inversion H; subst; clear H. apply sequence_Forall2 in E.
+    assert (Forall Q parts) as Hp.
+    { induction E; constructor; auto. eapply Q_enc_char; eauto. }
+    apply Qcons; try lia. apply Qapp; [now apply Qconcat|]. qa.
+  Qed.
+
+  Lemma Q_uint d : Q (uint_bytes d).
+  Proof. induction d; cbn; try apply Qnil; apply Qcons; auto; lia. Qed.
+
+  Lemma Q_enc_int z b : enc_int z = Some b -> Q b.
+  Proof.
+    unfold enc_int. destruct (_ && _)%bool; [|discriminate].
+    intros H; inversion H; subst. apply Qapp; [|apply Q_uint].
+    destruct (z <? 0)%Z; qa.
+  Qed.
+
+  Lemma Q_enc_float f : Q (enc_float f).
+  Proof.
+    destruct f as [| |tok]; cbn; try (unfold lit_null; qa).
+    induction tok as [|c tok IH]; cbn; [apply Qnil|]. apply Qcons; auto; destruct c; cbn; lia.
+  Qed.
+
+  Lemma Q_enc v : forall b, enc v = Some b -> Q b.
+  Proof.
+    induction v as [| b0 | z | f | s | l IHl | l IHl] using jv_ind'; intros out Henc; cbn in Henc.
+    - inversion Henc. unfold lit_null. qa.
+    - inversion Henc. destruct b0; [unfold lit_true | unfold lit_false]; qa.
+    - eapply Q_enc_int; eauto.
+    - inversion Henc. apply Q_enc_float.
+    - eapply Q_enc_str; eauto.
+    - destruct (sequence (map enc l)) as [parts|] eqn:E; [|discriminate].
+      inversion Henc; subst; clear Henc. apply sequence_Forall2 in E.
+      assert (Forall Q parts) as Hp.
+      { revert IHl. induction E; intros HF; constructor; inversion HF; subst; auto. }
+      apply Qcons; try lia. apply Qapp; [now apply Qjoin|]. qa.
+    - destruct (sequence (map (enc_member enc) l)) as [parts|] eqn:E; [|discriminate].
+      inversion Henc; subst; clear Henc. apply sequence_Forall2 in E.
+      assert (Forall Q parts) as Hp.
+      { revert IHl. induction E as [|kv p l' ps Hkv E IH]; intros HF; constructor; inversion HF; subst; auto.
+        destruct kv as [k x]. cbn in Hkv. destruct k as [s|]; [|discriminate].
+        destruct (enc_str s) as [a|] eqn:Ea; [|discriminate].
+        destruct (enc x) as [bx|] eqn:Ex; [|discriminate].
+        inversion Hkv; subst. apply Qapp; [eapply Q_enc_str; eauto|].
+        apply Qcons; try lia. cbn in H1. now apply H1. }
+      apply Qcons; try lia. apply Qapp; [now apply Qjoin|]. qa.
+  Qed.
+End closure.
+
+(* every encoding is the UTF-8 form of a text of scalar values *)
+Definition is_utf8 (b : bytes) : Prop := exists t, scalars t /\ utf8_all t = b.
+
+Lemma enc_is_utf8 v b : enc v = Some b -> is_utf8 b.
+Proof.
+  apply Q_enc; unfold is_utf8.
+  - exists []. split; [constructor | reflexivity].
+  - intros a1 b1 [t1 [S1 E1]] [t2 [S2 E2]]. exists (t1 ++ t2). split.
+    + apply Forall_app; auto.
+    + now rewrite utf8_all_app, E1, E2.
+  - intros x H1 H2. exists [x]. split.
+    + constructor; [|constructor]. unfold is_scalar, is_surrogate. sb.
+    + unfold utf8_all. cbn. unfold utf8. rewrite (proj2 (N.ltb_lt x 128) H2). reflexivity.
+  - intros c Hs _. exists [c]. split; [constructor; auto|]. unfold utf8_all. cbn. apply List.app_nil_r.
+Qed.
+
+Theorem encode_valid_utf8_lemma : forall v b, encode v = Some b ->
+  exists t, Forall (fun c => is_scalar c = true) t /\ utf8_all t = b /\ utf8_decode b = Some t.
+Proof.
+  intros v b H. apply encode_enc, enc_is_utf8 in H. destruct H as [t [Hs E]].
+  exists t. split; [exact Hs|]. split; [exact E|]. rewrite <- E. now apply utf8_decode_utf8_all.
+Qed.
+
+(* ---- text mode *)
+
+Definition event_bytes (e : event) : option bytes :=
+  match e with
+  | Write d => Some (data_bytes d)
+  | Flush => None
+  end.
+
+Lemma msg_events_text_binary m :
+  map event_bytes (msg_events Text m) = map event_bytes (msg_events Binary m).
+Proof.
+  unfold msg_events, dumps_line. destruct (encode m) as [b|] eqn:E; [|reflexivity].
+  destruct (encode_valid_utf8_lemma m b E) as [t [Hs [E1 E2]]]. rewrite E2. cbn.
+  now rewrite utf8_all_app, E1.
+Qed.
+
+(* a text-mode file receives, call for call, the text whose UTF-8 encoding the
+   binary-mode file receives; in particular the decode step of _dumps_unicode
+   never fails on an encoding *)
+Theorem text_mode_same_content_lemma : forall ms,
+  map event_bytes (run Text ms []) = map event_bytes (run Binary ms [])
+  /\ content (run Text ms (dest_open Text [])) = content (run Binary ms (dest_open Binary []))
+  /\ (forall m, dumps_line Text m = None <-> dumps_line Binary m = None).
+Proof.
+  intros ms.
+  assert (forall ms, map event_bytes (flat_map (msg_events Text) ms)
+                     = map event_bytes (flat_map (msg_events Binary) ms)) as A.
+  { induction ms0 as [|m ms0 IH]; cbn; auto. now rewrite !map_app, IH, msg_events_text_binary. }
+  assert (forall f, content f = concat (map (fun e => match event_bytes e with Some b => b | None => [] end) f)) as B.
+  { induction f as [|e f IH]; cbn; auto. destruct e; cbn; now rewrite IH. }
+  split; [|split].
+  - rewrite !run_events. cbn. apply A.
+  - rewrite !run_events, !content_app, !content_open. cbn. rewrite !B.
+    rewrite <- !(map_map event_bytes (fun o => match o with Some b => b | None => [] end)).
+    now rewrite A.
+  - intros m. unfold dumps_line. destruct (encode m) as [b|] eqn:E; [|tauto].
+    destruct (encode_valid_utf8_lemma m b E) as [t [Hs [E1 E2]]]. rewrite E2. split; discriminate.
+Qed.
+
+Example text_mode_nonvacuous :
+  run Text [JObj [(KStr [233], JStr [128512; 10])]] (dest_open Text [])
+  = [Write (DText [123; 34; 233; 34; 58; 34; 128512; 92; 110; 34; 125; 10]); Flush].
+Proof. vm_compute. reflexivity. Qed.
+
+(* ========================================================================
+   3 (continued). lines, for both modes and at every call boundary
+   ======================================================================== *)
+
+Theorem C10_lines_lemma : forall md ms k,
+  let c := content (run md (firstn k ms) (dest_open md [])) in
+  (c = [] \/ exists p, c = p ++ [10])
+  /\ split_lines c = encodings (firstn k ms) ++ [[]]
+  /\ complete_lines c = encodings (firstn k ms).
+Proof.
+  intros md ms k. cbv zeta.
+  assert (content (run md (firstn k ms) (dest_open md [])) = terminated (encodings (firstn k ms))) as E.
+  { destruct md.
+    - now rewrite content_run_binary, content_open.
+    - destruct (text_mode_same_content_lemma (firstn k ms)) as [_ [E _]]. rewrite E.
+      now rewrite content_run_binary, content_open. }
+  rewrite E. split; [apply terminated_ends|].
+  assert (split_lines (terminated (encodings (firstn k ms))) = encodings (firstn k ms) ++ [[]]) as S
+    by (apply split_terminated, encodings_no_nl).
+  split; [exact S|]. unfold complete_lines. rewrite S. apply removelast_last.
+Qed.
+
+Example lines_nonvacuous :
+  let ms := [JObj [(KStr [97], JStr [10; 13])]; JObj [(KStr [98], JInt 18446744073709551616)]; JObj []] in
+  complete_lines (content (run Binary ms (dest_open Binary [])))
+  = [[123; 34; 97; 34; 58; 34; 92; 110; 92; 114; 34; 125]; [123; 125]].
+Proof. vm_compute. reflexivity. Qed.
